@@ -1,4 +1,5 @@
 import GomlVerif.Model.Graph
+import GomlVerif.Gen.LocalName
 /-
 C16 — package isolation and trait coherence: the *decision logic*.
 
@@ -207,6 +208,15 @@ def pathCls (q : PkgSrc) (fi : List Pkg) (p : Pkg) : List Cls :=
   else (if q.imports.contains p && !fi.contains p then [.notImported] else []) ++
        (if fi.contains p && q.imports.contains p then [] else [.unresolved])
 
+/-- an own type or trait written without prefix, `SQ::mk(1)` / `TQ::m(x)`, is a two-segment path: when
+    the package (some file of it) imports a package that is *named* `SQ` / `TQ`, name resolution takes the
+    first segment for that package (l.672-725) and the item is not found there -/
+def shadowCls (q : PkgSrc) (fi : List Pkg) (own : Bool) (pre : String) : List Cls :=
+  let shadow := pre ++ q.name
+  if own && q.imports.contains shadow then
+    (if !fi.contains shadow then [.notImported] else []) ++ [.unresolved]
+  else []
+
 /-- diagnostics classes of one reference -/
 def useClasses (q : PkgSrc) (u : Use) : List Cls :=
   let fi := fileImports q u.file
@@ -227,9 +237,9 @@ def useClasses (q : PkgSrc) (u : Use) : List Cls :=
   | .dynT => if allowed then [] else [.notImported, .unresolved]
   | .ctor => if allowed then [] else [.unresolved]
   | .bound => if allowed then [] else [.unresolved]
-  | .smeth => pathCls q fi u.target
-  | .tmeth => pathCls q fi u.target
-  | .sself => pathCls q fi u.via ++ pathCls q fi u.target
+  | .smeth => shadowCls q fi own "S" ++ pathCls q fi u.target
+  | .tmeth => shadowCls q fi own "T" ++ pathCls q fi u.target
+  | .sself => pathCls q fi u.via ++ shadowCls q fi own "S" ++ pathCls q fi u.target
   -- the field access needs the environment of the struct's package: present iff the package imports it
   | .flow => pathCls q fi u.via ++ (if own || inDeps then [] else [.unresolved])
 
